@@ -45,6 +45,7 @@ static char scen[VH_TEXT];
 static char streamdesc[VH_TEXT];
 static int yield_k; /* how many times capture commands yield before exiting */
 static bool scribble; /* capture commands dirty the whole scratch area before they exit */
+static bool fail_mode; /* capture commands end with PT_FAIL: the console must report "Command failed" once each */
 
 static void viol(const char *key, const char *fmt, ...)
 {
@@ -122,6 +123,7 @@ static pt_state_t capture(console_t *c)
 	 * leave the whole scratch area dirty, the console has to present a clean line to the next command */
 	if (scribble)
 		memset(&c->scratch, 0xEE, sizeof(c->scratch));
+	PT_FAIL_ON(fail_mode);
 	PT_END();
 }
 
@@ -234,6 +236,7 @@ static int count_unknown(void)
 }
 
 static int exp_checked, got_checked, unknown_expected;
+static int help_lines;
 static bool lost_sync;
 static bool next_line_uncertain_at(int i) { return uncertain_flag[i]; }
 static void compare(bool at_end)
@@ -257,11 +260,28 @@ static void compare(bool at_end)
 			} else {
 				exp_checked = nexp;
 				got_checked = ngot;
+				unknown_expected = count_unknown();
 				lost_sync = true;
 			}
 			continue;
 		}
 		int r = find_registered(e->tok[0]);
+		if (r < 0 && (!strcmp(e->tok[0], "help") || !strcmp(e->tok[0], "echo"))) {
+			/* built-in command: no capture command runs, no complaint is printed */
+			if (got_checked < ngot && exp_checked == nexp - 1 && !at_end) {
+				viol("registered-command-ran-for-builtin-name", "line \"%s\" ran command \"%s\"", e->line, cmdnames[got[got_checked].cmd]);
+				return;
+			}
+			if (!lost_sync && count_unknown() > unknown_expected && exp_checked == nexp - 1 && !at_end) {
+				viol("builtin-command-not-found", "line \"%s\": the console printed its unknown-command message for a built-in", e->line);
+				return;
+			}
+			if (!strcmp(e->tok[0], "help"))
+				help_lines++;
+			VH_COUNT("builtin_lines");
+			exp_checked++;
+			continue;
+		}
 		if (r < 0) {
 			/* no registered command may run; the console says so.  (Only decidable while this is the one
 			 * line pending: in batch comparisons later lines have already produced their dispatches.) */
@@ -271,7 +291,7 @@ static void compare(bool at_end)
 				return;
 			}
 			unknown_expected++;
-			if (count_unknown() < unknown_expected) {
+			if (!lost_sync && count_unknown() < unknown_expected) {
 				viol("unknown-command-not-reported", "line \"%s\" names no command but the console did not print its unknown-command message",
 				     e->line);
 				return;
@@ -357,6 +377,7 @@ static void new_console(const char *const *names, int nnames)
 	}
 	ngot = nexp = 0;
 	exp_checked = got_checked = unknown_expected = 0;
+	help_lines = 0;
 	lost_sync = false;
 	unknown_seen = 0;
 	mlen = 0;
@@ -447,6 +468,27 @@ static void deliver(const unsigned char *s, int n, int mode)
 	}
 	if (!failed)
 		compare(true);
+	if (!failed && !lost_sync) {
+		fflush(out);
+		int nfail = 0;
+		for (const char *q = outbuf; q && (q = strstr(q, "Command failed")); q += 7)
+			nfail++;
+		if (fail_mode ? nfail != ngot : nfail != 0)
+			viol("command-failure-report", "%d commands ended with PT_FAILED but \"Command failed\" was printed %d times", fail_mode ? ngot : 0, nfail);
+		if (help_lines && !failed) {
+			/* help lists every registered name (and the built-ins), once per invocation */
+			for (int i = 0; i < ncmds_registered && !failed; i++) {
+				char pat[32];
+				snprintf(pat, sizeof(pat), "  %s\n", cmdnames[i]);
+				int n = 0;
+				for (const char *q = outbuf; q && (q = strstr(q, pat)); q += 2)
+					n++;
+				if (n < help_lines)
+					viol("help-listing-incomplete", "help ran %d time(s) but lists \"%s\" %d time(s)", help_lines, cmdnames[i], n);
+			}
+			VH_COUNT_N("help_invocations_checked", help_lines);
+		}
+	}
 }
 
 /* ---- workloads ---- */
@@ -484,6 +526,7 @@ static void exhaustive(void)
 		vh_case_replay("--extra exh --cases %d --only-case %" PRIu64, L, idx);
 		yield_k = 0;
 		scribble = (idx & 1) != 0;
+		fail_mode = false;
 		new_console(std_names, 2);
 		deliver(s, L, 0);
 		vh_evaluations++;
@@ -507,7 +550,10 @@ static void random_case(long long c)
 	int mode = (int)(c % 3);
 	yield_k = vh_below(&r, 3) == 0 ? 1 + (int)vh_below(&r, 3) : 0;
 	scribble = vh_below(&r, 2);
+	fail_mode = vh_below(&r, 5) == 0;
 	new_console(std_names, NSTD);
+	if (vh_below(&r, 2))
+		console_silent(con); /* documented way to suppress the first prompt */
 	static const char bare[] = "abcx019-_.";
 	unsigned char s[1400];
 	int n = 0;
@@ -524,6 +570,8 @@ static void random_case(long long c)
 		/* first token: a registered name most of the time */
 		int len = 0;
 		const char *first = vh_below(&r, 4) ? std_names[vh_below(&r, NSTD)] : "zz";
+		if (vh_below(&r, 12) == 0)
+			first = vh_below(&r, 2) ? "help" : "echo";
 		if (target > 0) {
 			for (const char *p = first; *p && len < target; p++, len++)
 				s[n++] = (unsigned char)*p;
@@ -615,6 +663,7 @@ static void reg_case(long long c)
 	if (n > NCMD)
 		n = NCMD;
 	yield_k = 0;
+	fail_mode = false;
 	scribble = vh_below(&r, 2);
 	new_console(NULL, 0);
 	/* distinct names, random order: permutation of a pool that sorts in every which way vs the built-ins echo/help */
